@@ -117,7 +117,8 @@ class PowerLawIMF:
     def Mtot(self):
         '''Total mass of system under this IMF (assuming `self.N0` stars).'''
         from scipy.integrate import quad
-        return quad(self.M, self.mb[0], self.mb[-1])[0]
+        # (the integrand has a kink at every break mass)
+        return quad(self.M, self.mb[0], self.mb[-1], points=self.mb[1:-1])[0]
 
     @classmethod
     def from_M0(cls, m_break, a, M0, *, ext='zeros'):
